@@ -188,7 +188,7 @@ impl World {
                 }
                 Ok(())
             }
-            Cmd::Catchup { p, member, q } => self.catchup(*p, *member, *q),
+            Cmd::Catchup { p, member, q, claim_collected } => self.catchup(*p, *member, *q, *claim_collected),
             Cmd::Inject { to, hex } => self.inject(*to, unhex(hex)),
             Cmd::Handshake { a, b } => self.handshake(*a, *b).map(|_| ()),
             Cmd::QuiesceRound => self.quiesce_round(),
@@ -658,7 +658,7 @@ impl World {
         self.tick(p, &targets)
     }
 
-    fn catchup(&mut self, p: usize, member: usize, q: usize) -> Result<(), Violation> {
+    fn catchup(&mut self, p: usize, member: usize, q: usize, claim_collected: bool) -> Result<(), Violation> {
         if !self.running(p) || !self.running(q) || p == q || member >= self.incs.len() {
             return Ok(());
         }
@@ -670,7 +670,7 @@ impl World {
         let src = self.nodes[q].as_ref().unwrap();
         let Some(src_ns) = src.chit.node_state(&xr) else { return Ok(()) };
         let kvs: Vec<(String, VersionedValue)> = src_ns.key_values_including_deleted().map(|(k, v)| (k.to_string(), v.clone())).collect();
-        let (smv, sgc) = (src_ns.max_version(), src_ns.last_gc_version());
+        let (smv, sgc) = (src_ns.max_version(), if claim_collected { src_ns.max_version() } else { src_ns.last_gc_version() });
         let src_taint: HashSet<(String, u64)> = src.taint.iter().filter(|t| t.0 == x).map(|t| (t.1.clone(), t.2)).collect();
         let src_marks: BTreeMap<String, (u64, u64)> = src.marks.iter().filter(|(k, _)| k.0 == x).map(|(k, v)| (k.1.clone(), *v)).collect();
         let supplied: BTreeMap<String, u64> = kvs.iter().map(|(k, v)| (k.clone(), v.version)).collect();
